@@ -109,3 +109,15 @@ func (m *c19Model) boundParam(fi *FuncInfo, b types.Object) types.Object {
 	})
 	return out
 }
+
+// c19Target returns what an assignable expression denotes for the valuations: the variable of an identifier, the
+// field of a selection (bounds held in struct fields are tracked by field, see boundOf).
+func c19Target(info *types.Info, e ast.Expr) types.Object {
+	if o := objOf(info, e); o != nil {
+		return o
+	}
+	if f := fieldOf(info, e); f != nil {
+		return f
+	}
+	return nil
+}
